@@ -3,6 +3,7 @@ import PPProofs.Props.C06
 #print axioms PP.Parse.parse_match_forward
 #print axioms PP.Parse.parse_locations_inside
 #print axioms PP.Parse.parseString_error_loc_inside
+#print axioms PP.Parse.scanString_locations_inside
 #print axioms PP.Parse.leaf_indexerror_only_at_end
 #print axioms PP.Parse.parseString_no_indexerror
 #print axioms PP.Parse.scanString_no_indexerror
